@@ -2,7 +2,8 @@
 (***************************************************************************)
 (* Bounded instances of Registry: the configurations are read from the     *)
 (* ndjson file IOEnv.CFG (written by vf/c15.py); every transition of the    *)
-(* reachable state graph is exported to IOEnv.OUT as one JSON line with the *)
+(* reachable state graph is exported to the file <IOEnv.OUT><configuration  *)
+(* id>.ndjson as one JSON line with the                                     *)
 (* world before, the call, what the call must return / raise, the world     *)
 (* after and the tags of the unspecified zone (spec -> code replay).  A     *)
 (* (world, call) pair with several admissible outcomes yields several lines.*)
@@ -41,7 +42,7 @@ Emit(e) ==
                     dev |-> {[name |-> d.name, res |-> d.o.res, cls |-> d.o.cls,
                               post |-> WorldJ(WorldOf(d.o))] : d \in DevOutcomes(cfg, W, e)}])
               \o "\n",
-            IOEnv.OUT, [format |-> "TXT", charset |-> "UTF-8",
+            IOEnv.OUT \o cfg.id \o ".ndjson", [format |-> "TXT", charset |-> "UTF-8",
                         openOptions |-> <<"WRITE", "CREATE", "APPEND">>]).exitValue = 0
 
 Do(act, e) == /\ e.op \in cfg.ops /\ act
